@@ -300,7 +300,7 @@ func nativeReplay(rel string, ovJSON string, files []string, observe bool, timeo
 	if len(files) == 0 {
 		return out, ""
 	}
-	args := []string{"test", "-vet=off", "-count=1", "-overlay", ovJSON, "-run", "^TestVerifReplay$", "-timeout", fmt.Sprintf("%ds", int(timeout.Seconds())), "./" + rel}
+	args := []string{"test", "-v", "-vet=off", "-count=1", "-overlay", ovJSON, "-run", "^TestVerifReplay$", "-timeout", fmt.Sprintf("%ds", int(timeout.Seconds())), "./" + rel}
 	cmd := exec.Command("go", args...)
 	cmd.Dir = repoDir
 	cmd.Env = append(os.Environ(), "GOFLAGS=-mod=mod", "GOPROXY=off", "GOSUMDB=off", "GOTOOLCHAIN=local",
@@ -483,7 +483,9 @@ func doCheck(id, tier string) int {
 	workDir := filepath.Join(verifDir, ".work", id+"-"+tier)
 	os.RemoveAll(workDir)
 	os.MkdirAll(workDir, 0o755)
-	defer os.RemoveAll(workDir)
+	if os.Getenv("SYMGO_KEEP") == "" {
+		defer os.RemoveAll(workDir)
+	}
 	replayDir := filepath.Join(verifDir, "replays")
 	os.MkdirAll(replayDir, 0o755)
 
@@ -543,6 +545,9 @@ func doCheck(id, tier string) int {
 		outcomes := map[string]string{}
 		for len(remaining) > 0 {
 			got, txt := nativeReplay(rel, ovJSON, remaining, false, 120*time.Second)
+			if os.Getenv("SYMGO_VERBOSE") != "" {
+				fmt.Fprintf(os.Stderr, "native replay output:\n%s\n", txt)
+			}
 			if len(got) == 0 {
 				fmt.Fprintf(os.Stderr, "native replay produced no outcome:\n%s\n", txt)
 				break
@@ -640,23 +645,23 @@ func doCheck(id, tier string) int {
 
 func writeEvidence(id, tier string, seed int, reports []*harnessReport, confirmed, spurious, replays int, knownSeen map[string]bool, inconclusive []string, wall time.Duration) {
 	type hEv struct {
-		Harness     string         `json:"harness"`
-		Package     string         `json:"package"`
-		Bounds      string         `json:"bounds"`
-		Paths       int            `json:"paths"`
-		Completed   int            `json:"completed_paths"`
-		Infeasible  int            `json:"infeasible_or_assumed_away"`
-		Decisions   int            `json:"decisions"`
-		Asserts     int            `json:"assertions_checked"`
-		AssertsSym  int            `json:"assertions_decided_by_solver_query"`
-		Witness     map[string]int `json:"witnesses_reached"`
-		Candidates  int            `json:"counterexample_candidates"`
-		Queries     map[string]int `json:"queries"`
-		SolverS     float64        `json:"solver_s"`
-		TierBQ      int            `json:"tierB_queries"`
-		TierBS      float64        `json:"tierB_solver_s"`
-		WallS       float64        `json:"wall_s"`
-		Truncated   bool           `json:"truncated"`
+		Harness    string         `json:"harness"`
+		Package    string         `json:"package"`
+		Bounds     string         `json:"bounds"`
+		Paths      int            `json:"paths"`
+		Completed  int            `json:"completed_paths"`
+		Infeasible int            `json:"infeasible_or_assumed_away"`
+		Decisions  int            `json:"decisions"`
+		Asserts    int            `json:"assertions_checked"`
+		AssertsSym int            `json:"assertions_decided_by_solver_query"`
+		Witness    map[string]int `json:"witnesses_reached"`
+		Candidates int            `json:"counterexample_candidates"`
+		Queries    map[string]int `json:"queries"`
+		SolverS    float64        `json:"solver_s"`
+		TierBQ     int            `json:"tierB_queries"`
+		TierBS     float64        `json:"tierB_solver_s"`
+		WallS      float64        `json:"wall_s"`
+		Truncated  bool           `json:"truncated"`
 	}
 	var hev []hEv
 	states, trans := 0, 0
